@@ -114,6 +114,17 @@ CLAIMS = {
              "guard-and-raise fragment the rule answers UNDECIDED (exit 2).",
         technique=TECH + "predicate extraction from guard chains with exhaustive enumeration of the abstract input language, CFG "
                          "exception edges with definite assignment, dominance (validate-before-store), table agreement"),
+    "C17": dict(
+        text="Decides, by complete enumeration of the folded catalogues (about 40k names; the 39k two-qutrit names sampled in the quick "
+             "tier, enumerated in the thorough tier): (Y1) every function name a dispatch template (eval of a name built from the "
+             "catalogued name) can produce under its dominating membership guards exists in the module and the call made through it "
+             "binds, branch by branch; (Y2) every such eval is dominated by a catalogue membership test and dispatch chains end in a "
+             "raise / never fall through to an unassigned result; (Y3) the catalogues fold to non-empty duplicate-free lists.",
+        note="Not decided: physicality and mutual agreement of the catalogued matrices, textbook actions (numerical; constant-folding "
+             "numeric matrix code would be running it). Evals over derived locals (split name items, Pauli types) are listed as "
+             "informational. Known finding F8 (unguarded eval fall-through in povm_typical).",
+        technique=TECH + "constant folding of the string/list fragment, path-sensitive guard evaluation, name-template resolution "
+                         "and call binding, CFG definite assignment"),
 }
 
 NOT_APPLICABLE = {
